@@ -303,7 +303,21 @@ class HAPServerProtocol(asyncio.Protocol):
 
         # If we get a shared key, upgrade to encrypted
         if response.shared_key:
+            # When a plaintext connection is upgraded, anything the HTTP parser
+            # still holds was received before the session existed (for example
+            # appended to the segment carrying the pair-verify request by someone
+            # on the path). It is not part of the encrypted stream and must never
+            # be processed as a request of the secure session.
+            smuggled = self.hap_crypto is None and self.conn.trailing_data[0]
             self.hap_crypto = HAPCrypto(response.shared_key)
+            if smuggled:
+                logger.warning(
+                    "%s: Unexpected plaintext after pair verify, closing connection",
+                    self.peername,
+                )
+                self.conn = h11.Connection(h11.SERVER)
+                self.close()
+                return
         # A removed controller must lose its open sessions, but only
         # after the response to the removal request has been sent
         if response.pairing_removed:
